@@ -40,11 +40,6 @@ import (
 	"github.com/projectcalico/calico/verifkit/ev"
 )
 
-// c14KnownV6 is the signature shared with C13: cleanupv1.ValueV6.Timestamp/RevTimestamp read
-// the wrong offsets, so the IPv6 scanner queues garbage timestamps for reverse-NAT entries
-// it only met on their own; such entries are never cleaned (liveness).
-const c14KnownV6 = "ccq-valuev6-timestamp-accessors-use-v4-keysize"
-
 // c14KnownFwdEqTS is the signature of the finding "Scanner.handleNATEntries takes
 // fwd.last_seen == rev.last_seen (the state the kernel leaves after any packet that hit the
 // forward key) for 'reverse entry missing' and queues the forward entry as a standalone
@@ -795,7 +790,6 @@ func TestVerifC14CleanupNeverRemovesLive(t *testing.T) {
 		"expiry reference restates timeouts + entryDone (idle > timeout for protocol/TCP state)")
 	defer rec.Write()
 	natives := map[int]*cnative.Proc{4: c14StartNative(t, 4), 6: c14StartNative(t, 6)}
-	known := ev.Known(c14KnownV6)
 
 	rapid.Check(t, func(t *rapid.T) {
 		ipver := rapid.SampledFrom([]int{4, 4, 6}).Draw(t, "ipver")
@@ -865,11 +859,6 @@ func TestVerifC14CleanupNeverRemovesLive(t *testing.T) {
 			idle := time.Duration(final - c.st.lastSeen)
 			th := c14Threshold(h.to, c.st)
 			if idle > th {
-				if ipver == 6 && c.nat && !h.present(c.fwdKey) && known {
-					// IPv6 reverse-NAT entry without its forward entry: known finding
-					rec.Excluded(c14KnownV6)
-					continue
-				}
 				t.Fatalf("C14 VIOLATION (liveness): connection #%d (IPv%d proto %d nat=%v) idle %v > timeout %v, no traffic, still present after 2 further scans "+
 					"(forward entry present: %v)\n history: %s", c.id, ipver, c.st.proto, c.nat, idle, th, c.nat && h.present(c.fwdKey), strings.Join(h.ops, " "))
 			}
@@ -890,7 +879,8 @@ func TestVerifC14CleanupNeverRemovesLive(t *testing.T) {
 	})
 }
 
-// ---- confirm tests of the known findings (scripted, no rapid; not part of the normal run) ----
+// ---- scripted tests (no rapid): the confirm test of the open known finding (named
+// TestVerifC14_..., outside the unit's run pattern) and a regression input of a fixed one ----
 
 type c14Script struct {
 	h *c14H
@@ -970,9 +960,11 @@ func TestVerifC14_ConfirmFwdEqualTS(t *testing.T) {
 	}
 }
 
-// TestVerifC14_ConfirmV6RevOrphan fails exactly when the IPv6 consequence of c14KnownV6
-// reproduces: an expired reverse-NAT entry met on its own is never cleaned.
-func TestVerifC14_ConfirmV6RevOrphan(t *testing.T) {
+// TestVerifC14RegressV6RevOrphan is the plain regression input of a defect this check found and
+// that was fixed in the tree (4a9af25, cleanupv1.ValueV6.Timestamp/RevTimestamp offsets): an
+// expired IPv6 reverse-NAT entry met without its forward entry was queued with garbage
+// timestamps and never cleaned.
+func TestVerifC14RegressV6RevOrphan(t *testing.T) {
 	ev.Quiet()
 	h := c14NewScripted(t, 6)
 	c := h.addConn(conntrack.ProtoUDP, true, false, 10*time.Minute, 0)
@@ -980,6 +972,6 @@ func TestVerifC14_ConfirmV6RevOrphan(t *testing.T) {
 	h.scan()
 	h.scan()
 	if h.present(c.key) {
-		t.Fatalf("C14 finding reproduces (IPv6): reverse-NAT entry idle 10m (UDP timeout %v) still present after two scans", h.to.UDPTimeout)
+		t.Fatalf("C14 VIOLATION (liveness, regression of 4a9af25): IPv6 reverse-NAT entry idle 10m (UDP timeout %v) still present after two scans", h.to.UDPTimeout)
 	}
 }
